@@ -61,7 +61,8 @@ def gen_case(ver, rng: random.Random, schema, keys):
         else:
             cur[name] = min(65535, base + rng.choice((1, 4, 20)))
     rejected = [n for n in sorted(set(dflt) | set(ovr)) if rng.random() < 0.2]
-    return {"ver": ver, "ovr": ovr, "cur": cur, "unreadable": sorted(unreadable), "rejected": rejected}
+    return {"ver": ver, "ovr": ovr, "cur": cur, "unreadable": sorted(unreadable), "rejected": rejected,
+            "rejstatus": rng.choice((None, "ERROR_OUT_OF_MEMORY", "ERROR_INVALID_ID", "ERROR_INVALID_CALL"))}
 
 
 def run_case(case):
@@ -77,6 +78,7 @@ def run_case(case):
             ncp = ncp_ezsp.NcpEzsp(ver, loop, negotiated=False)
             gw = ncp_ezsp.FakeGateway(ncp)
         t = ncp.t
+        ncp.reject_status = case.get("rejstatus")
         ids = {}
         for name in set(case["cur"]) | set(case["unreadable"]) | set(case["rejected"]):
             if name.startswith("VALUE_"):
@@ -191,6 +193,10 @@ def run(ctx: Ctx):
         cases.append({"ver": ver, "ovr": {}, "cur": {k: v for k, v in d.items()}, "unreadable": [], "rejected": []})
         cases.append({"ver": ver, "ovr": {}, "cur": {k: v + 9 for k, v in d.items() if v < 60000}, "unreadable": [], "rejected": sorted(d)})
         cases.append({"ver": ver, "ovr": {}, "cur": {}, "unreadable": sorted(d), "rejected": []})
+        # one setting refused with each status the firmware may choose (incl. out of memory), everything else below its default
+        for name in sorted(d)[:4] + sorted(d)[-2:]:
+            for rs in ("ERROR_OUT_OF_MEMORY", "ERROR_INVALID_ID"):
+                cases.append({"ver": ver, "ovr": {}, "cur": {k: 0 for k in d}, "unreadable": [], "rejected": [name], "rejstatus": rs})
         # systematic single-setting family: every setting of the version's schema disabled once (NCP reporting a larger value), and
         # overridden once with the smallest and the largest candidate the schema accepts (NCP reporting something else)
         import voluptuous as vol
